@@ -13,6 +13,7 @@
 package main
 
 import (
+	"time"
 	"encoding/binary"
 	"fmt"
 	"strings"
@@ -563,6 +564,7 @@ func main() {
 	vlib.Main(vlib.Spec{
 		ID:    "C08",
 		Level: "model_checking",
+		CaseTimeout: 30 * time.Minute,
 		Rule:  "scenarios = valid prefix (none | Bootstrap | Bootstrap + one gated call in flight) x every sequence of 1..L messages over a structured hostile alphabet (about 70 messages: every rpc.capnp message type with unknown / reused / finished / extreme ids, all capability-descriptor variants incl. a bad one after a good one, malformed params, unknown union members, unsupported features, plus the valid messages needed to reach finished/released states) [x optionally a local caller waiting on the peer], then a liveness probe (fresh Bootstrap) and Conn.Close; thorough also corrupts every word of six valid messages with a 10-value pointer corruption alphabet. For each scenario every schedule of the real rpc/server/capnp code inside the bounds. Oracle: no panic, no deadlock (structural), probe answered or connection shut down, Close returns, all goroutines exit, Transport contract respected, no surplus Return. states = distinct scheduling configurations summed over scenarios; transitions = scheduling steps; traces = executions on the implementation.",
 		Assumptions: []string{
 			"timers (abort timeout) never fire inside the horizon",
